@@ -10,6 +10,7 @@ from sa.props.reader_rules import src_chain
 
 
 def run(P, rep, tier):
+    P.func('pydiffx.utils.text', 'split_lines')     # anchor of the line-splitting role (analysed by C16); vanished -> exit 2
     rep.explanation = (
         'Byte equality with an independent serialiser is NOT decided. Decided on the abstract paths of every public writer '
         'call: R1 every option value that reaches a header is None (dropped), a member of a folded choice set inside the '
